@@ -45,6 +45,18 @@ type Node struct {
 	log           []Exchange
 	subs          []*websocket.Conn // eth_subscribe("newHeads") subscribers (path /ws)
 	wsAnnounced   []string          // "<number> <hash hex>" of every head pushed to the subscribers
+	lag           map[string]int    // URL path -> how many blocks the backend answering that path is behind
+}
+
+// SetLag makes the backend behind one URL path answer from a chain that ends `blocks` blocks below the
+// node's head (a lagging member of a load-balanced pool): its latest block, its headers and its logs stop there.
+func (n *Node) SetLag(path string, blocks int) {
+	n.mu.Lock()
+	defer n.mu.Unlock()
+	if n.lag == nil {
+		n.lag = map[string]int{}
+	}
+	n.lag[path] = blocks
 }
 
 // WSURL is the websocket endpoint: eth_subscribe newHeads, then one notification per Announce.
@@ -261,6 +273,10 @@ func (n *Node) serve(w http.ResponseWriter, r *http.Request) {
 		}
 		ex.Version = n.version
 		if !ex.Drop {
+			full := n.chain
+			if k := n.lag[r.URL.Path]; k > 0 && len(full.Blocks) > k+1 {
+				n.chain = &Chain{Blocks: full.Blocks[:len(full.Blocks)-k]}
+			}
 			for i, req := range ex.Requests {
 				res, rerr := n.dispatch(req)
 				switch {
@@ -272,6 +288,7 @@ func (n *Node) serve(w http.ResponseWriter, r *http.Request) {
 					ex.Responses = append(ex.Responses, map[string]any{"jsonrpc": "2.0", "id": req.ID, "result": res})
 				}
 			}
+			n.chain = full
 			if ex.Batch && len(ex.Requests) == 0 { // geth: single error object
 				ex.Responses = append(ex.Responses, errResp(json.RawMessage("null"), -32600, "empty batch"))
 				ex.RawBody, _ = json.Marshal(ex.Responses[0])
